@@ -16,7 +16,8 @@ RULE = ('Case = (performance curve, distance, ordering); the history is the comp
         'interior point of that segment up to 64*eps*scale (by the library distance primitive AND by distances '
         'computed from the geometric definition); the segment score '
         '(triangle = 1/2*|chord|*max d, area = sum d, segment = endpoint-fit residual) recomputed from the '
-        'segment alone is maximal among segments of S_k with interior points (1e-9 relative).  Non-trivial: a '
+        'segment alone is maximal among segments of S_k with interior points (1e-9 relative; for Order.segment '
+        'also with residual sums computed from the definition, independent of the library).  Non-trivial: a '
         'chain step in which >= 2 splittable segments compete.  Distinct by digest of (curve, distance, order).')
 ASSUMPTIONS = ['distance and residual primitives are validated independently by C16/C17']
 
@@ -38,6 +39,38 @@ def seg_score(p, l, r, order, D):
         if order == 'triangle':
             return float(0.5 * np.linalg.norm(pt[0] - pt[-1]) * d.max())
         return float(np.sum(d))
+
+
+def segment_score_ref(p, a, b):
+    """Order.segment's score written from its definition - the sum of squared residuals of the line
+    through the segment's end points - evaluated relative to the first point (no cancellation), and
+    the forward error bound of a plain evaluation y - (m*x + b) of the same quantity."""
+    x = p[a:b + 1, 0].astype(float)
+    y = p[a:b + 1, 1].astype(float)
+    m = (y[-1] - y[0]) / (x[-1] - x[0])
+    r = (y - y[0]) - m * (x - x[0])
+    e = 8 * EPS * (np.abs(y) + np.abs(m * x) + abs(y[0] - m * x[0]))
+    return float(np.sum(r * r)), float(4 * np.sum(2 * np.abs(r) * e + e * e))
+
+
+def segment_order_ref(rec, p, prev, l, r, k):
+    """'that segment attains the maximal ordering score' for Order.segment, with scores that do not
+    come from the library: violated only if another splittable segment's score exceeds the split
+    segment's by more than both rounding allowances."""
+    with np.errstate(all='ignore'):
+        mine, am = segment_score_ref(p, l, r)
+        best = None
+        for a, b in zip(prev[:-1], prev[1:]):
+            if b - a >= 2 and (a, b) != (l, r):
+                v, av = segment_score_ref(p, a, b)
+                if v == v and av == av and (best is None or v - av > best[0] - best[1]):
+                    best = (v, av, a, b)
+    if best is None or mine != mine or am != am:
+        return
+    v, av, a, b = best
+    rec.check(mine + am >= v - av - 1e-9 * v, 'fixed:segment-not-max-residual-score',
+              'k=%d split segment [%d,%d] has endpoint-line residual %r (+-%r) but retained segment [%d,%d] has %r (+-%r)'
+              % (k, l, r, mine, am, a, b, v, av))
 
 
 def geometric_farthest(rec, p, l, r, s, kind, k):
@@ -116,6 +149,8 @@ def oracle(case, rec):
                 rec.check(d[s - l] >= float(np.max(d[1:-1])) - noise, 'fixed:new-index-not-farthest',
                           'k=%d segment [%d,%d] new %d d=%r max=%r' % (k, l, r, s, float(d[s - l]), float(np.max(d[1:-1]))))
                 geometric_farthest(rec, p, l, r, s, case['distance'], k)
+                if order == 'segment':
+                    segment_order_ref(rec, p, prev, l, r, k)
                 scores = [(seg_score(p, a, b, order, D), a, b) for a, b in zip(prev[:-1], prev[1:]) if b - a >= 2]
                 mine = seg_score(p, l, r, order, D)
                 finite = [v for v, _, _ in scores if v == v]
@@ -179,6 +214,8 @@ def oracle_step(case, rec):
     noise = lib.chord_noise(p, l, r) + 1e-12 * float(np.max(d[1:-1])) + EPS   # EPS: the library's own absolute "all on the chord" guard
     rec.check(d[s - l] >= float(np.max(d[1:-1])) - noise, 'fixed:new-index-not-farthest', 'k=%d segment [%d,%d] new %d' % (k, l, r, s))
     geometric_farthest(rec, p, l, r, s, case['distance'], k)
+    if order == 'segment':
+        segment_order_ref(rec, p, prev, l, r, k)
     scores = [(seg_score(p, a, b, order, D), a, b) for a, b in zip(prev[:-1], prev[1:]) if b - a >= 2]
     mine = seg_score(p, l, r, order, D)
     finite = [v for v, _, _ in scores if v == v]
